@@ -17,9 +17,7 @@ def robjOf (o : Obj) : RObj :=
     cpuset := o.cpuset.getD 0, ccpuset := o.ccpuset.getD 0, nodeset := o.nodeset.getD 0, cnodeset := o.cnodeset.getD 0,
     hasSets := o.cpuset.isSome,
     gkind := if o.type == tGROUP then a 1 else 0, gsubkind := if o.type == tGROUP then a 2 else 0,
-    -- the byte at the offset of attr->group.dont_merge: for caches it aliases the low byte of cache.linesize
-    dmByte := if o.type == tGROUP then (a 3).toNat % 256
-              else if isDCache o.type || isICache o.type then (a 2).toNat % 256 else 0 }
+    dmByte := if o.type == tGROUP then (a 3).toNat % 256 else 0 }
 
 structure Kids where
   ns : List Tree := []
